@@ -191,6 +191,13 @@ fn gen_rows(r: &mut Rng) -> Vec<Row> {
         left -= tenths.min(left);
         rows.push(Row { desc, alloc, fmv: gen_money(r), own_line: r.chance(if single { 70 } else { 40 }) });
     }
+    // two lots of the same holding: character-identical descriptions, each row still counts
+    if rows.len() >= 2 && r.chance(8) {
+        let i = r.below(rows.len() as u64) as usize;
+        let j = (i + 1 + r.below(rows.len() as u64 - 1) as usize) % rows.len();
+        let d = rows[i].desc.clone();
+        rows[j].desc = d;
+    }
     rows
 }
 
